@@ -80,6 +80,22 @@ def imag(x):
     return x[1, ...]
 
 
+def _memory_overlaps(a, b):
+    """Checks whether the memory regions spanned by two tensors intersect,
+    e.g. because one is a view (slice, `.data`, `.detach()`) of the other.
+    """
+    if a.device != b.device or a.numel() == 0 or b.numel() == 0:
+        return False
+
+    def span(t):
+        start = t.data_ptr()
+        extent = sum((n - 1) * s for n, s in zip(t.shape, t.stride())) + 1
+        return start, start + extent * t.element_size()
+
+    (a_lo, a_hi), (b_lo, b_hi) = span(a), span(b)
+    return a_lo < b_hi and b_lo < a_hi
+
+
 def scalar_mult(x, y, out=None):
     """A function that computes the product between complex matrices and scalars,
     complex vectors and scalars or two complex scalars.
@@ -93,12 +109,14 @@ def scalar_mult(x, y, out=None):
               Either overwrites `out`, or returns a new tensor.
     :rtype: torch.Tensor
     """
+    if out is not None and (
+        out is x or out is y or _memory_overlaps(out, x) or _memory_overlaps(out, y)
+    ):
+        raise RuntimeError("Can't overwrite an argument!")
+
     y = y.to(x)
     if out is None:
         out = torch.zeros(2, *((real(x) * real(y)).shape)).to(x)
-    else:
-        if out is x or out is y:
-            raise RuntimeError("Can't overwrite an argument!")
 
     torch.mul(real(x), real(y), out=real(out)).sub_(torch.mul(imag(x), imag(y)))
     torch.mul(real(x), imag(y), out=imag(out)).add_(torch.mul(imag(x), real(y)))
